@@ -441,7 +441,7 @@ Lemma after_mark_spec s0 s mk mt : wstep s0 s \/ (s0 = s /\ wst_ok s /\ wlive s)
       wbind (pop_reference s) (fun r s1 => WOk (mkTag mk mt (TagRef r) (ref_start r) (ref_end r)) s1)
     | STRING =>
       wbind (pop_value_top s) (fun v s1 => WOk (mkTag mk mt (TagVal v) (value_start v) (value_end v)) s1)
-    | _ => wbind (pop_token s) (fun t s1 => WErr t (Expected [IDENT; BOOL; STRING]) s1)
+    | _ => wbind (pop_token s) (fun t s1 => WErr t (Expected exp_tag) s1)
     end in
   match r with
   | WOk t s' => wstep s s' /\ nodes_ok (hw s) (hw s') (tag_nodes t) /\
@@ -465,7 +465,7 @@ Proof.
     destruct (pop_reference s) as [r s1|t wet s1|p|]; cbn in *; auto.
     destruct H as (A & (B & C & D) & F). split; [exact A|]. split; [|exact F].
     unfold tag_nodes. cbn. inversion C as [|x l Hx Hl']; subst. constructor; [exact Hx|exact C]. }
-  assert (Hdef : match wbind (pop_token s) (fun t s1 => WErr (A:=tag) t (Expected [IDENT; BOOL; STRING]) s1) with
+  assert (Hdef : match wbind (pop_token s) (fun t s1 => WErr (A:=tag) t (Expected exp_tag) s1) with
     | WOk t s' => wstep s s' /\ nodes_ok (hw s) (hw s') (tag_nodes t) /\
                   (wrest s <> [] -> (length (wrest s') < length (wrest s))%nat)
     | WErr t _ s' => wstep s s' /\ tok_in (hw s) (hw s') t
@@ -491,7 +491,7 @@ Proof.
           wbind (pop_reference s1) (fun r s2 => WOk (mkTag mk (Some t) (TagRef r) (ref_start r) (ref_end r)) s2)
         | STRING =>
           wbind (pop_value_top s1) (fun v s2 => WOk (mkTag mk (Some t) (TagVal v) (value_start v) (value_end v)) s2)
-        | _ => wbind (pop_token s1) (fun t s2 => WErr t (Expected [IDENT; BOOL; STRING]) s2)
+        | _ => wbind (pop_token s1) (fun t s2 => WErr t (Expected exp_tag) s2)
         end))).
   { intros mk. destruct (pop_token_spec s Hok Hl) as (t & s1 & E & Hst & Hin & Hty & Hlen & Hte).
     rewrite E. cbn [wbind].
@@ -755,7 +755,7 @@ Proof.
     - repeat split; auto. eapply pos_le_trans; [exact Hstart3|exact He1]. }
   destruct (pop_token_spec s3 Hok3 Hl3) as (t4 & s4 & E4 & H34 & Hin4 & Hty4 & Hlen4 & Hte4).
   assert (H04 : wstep s s4) by (eapply wstep_trans; [exact H03|exact H34]).
-  assert (Hdefault : frag_res (hw s) s (wbind (pop_token s3) (fun t s4 => WErr t (Expected [LBRACE; EOL; DESCRIPTION; IDENT]) s4))).
+  assert (Hdefault : frag_res (hw s) s (wbind (pop_token s3) (fun t s4 => WErr t (Expected exp_header) s4))).
   { rewrite E4. cbn. split; [exact H04|]. eapply range_weaken; [apply H03|apply pos_le_refl|exact Hin4]. }
   destruct (next_type s3) eqn:En3; try exact Hdefault.
   - (* EOF *) cbn. split; [exact H03|]. split; [|intros _; exact Hlt3].
@@ -808,7 +808,7 @@ Proof.
                     (wbind (pop_token s) (fun _ s1 => WOk None s1))).
   { rewrite E. cbn. split; [exact Hst|]. split; [constructor|exact Hlen]. }
   assert (Herr : wres_ok s (fun fo s' => nodes_ok (hw s) (hw s') (ofrag_nodes fo))
-                    (wbind (pop_token s) (fun t s1 => WErr t (Expected [IDENT; COMMENT; DESCRIPTION; RBRACE; EOL]) s1))).
+                    (wbind (pop_token s) (fun t s1 => WErr t (Expected exp_fragment) s1))).
   { rewrite E. cbn. split; assumption. }
   assert (Hstmt : next_type s = IDENT \/ next_type s = BOOL ->
             wres_ok s (fun fo s' => nodes_ok (hw s) (hw s') (ofrag_nodes fo))
